@@ -20,6 +20,8 @@ kani_unit("air_assertions", "winter-air", "air/src/air/assertions/mod.rs", "kani
       bounded="trace length in {8, 16, 32}"),
     H("air_assertion_validate_contract", ["C16"], ["Assertion::validate_trace_length", "Assertion::get_num_steps", "Assertion::single", "Assertion::periodic"],
       "forall trace lengths, steps, strides: single valid iff n power of two and step < n; periodic valid iff stride <= n; number of named steps is 1 resp. n / stride"),
+    H("air_assertion_sequence_contract", ["C16"], ["Assertion::sequence", "Assertion::validate_trace_length", "Assertion::get_num_steps", "Assertion::is_single/is_periodic/is_sequence"],
+      "a one-value sequence is a single assertion (stride 0, one named step); a 4-value sequence names 4 steps and is valid exactly for n == 4 * stride"),
     H("air_assertions_canary_must_fail", ["C16"], [], "false claim: assertions never overlap", canary=True),
 ])
 
